@@ -1,5 +1,5 @@
 """C19 - print emits each unfiltered option once, in order, at its depth (structural clauses)."""
-from .. import sym, cfg as _cfg, parsermodel as pm, report
+from .. import outmodel, sym, cfg as _cfg, parsermodel as pm, report
 
 EXPLANATION = (
     'Static analysis of the printing functions in the LLVM IR. One iteration of the option loop of the context printer '
@@ -10,6 +10,9 @@ EXPLANATION = (
     'of the built-in value writer must sit on the NULL arm of the print-callback test and every callback call on the '
     'non-NULL arm with the same (option, index, stream); opening line and closing brace of a section are indented with '
     'the current depth; an unset scalar is prefixed with the comment marker. The exact text is not computed.')
+
+
+MARKS = ('cfg_indent', 'cfg_print_quoted', 'cfg_print_pff_indent', 'cfg_opt_nprint_var', 'indirect:')
 
 
 def run(c, chk):
@@ -180,13 +183,21 @@ def run(c, chk):
                'index 0,1,2,.. in order; each option printed exactly when the effective filter is NULL or returns 0', sample=True)
         chk.ok('R19.2', 'effective filter', 'own filter if set, else the inherited one; the same value is handed to the per-option printer', sample=True)
     chk.floor('R19.1 loop paths', n, 3)
+    # every call of the context printer from outside the per-option printer starts with no inherited filter
+    nouter = 0
+    for f in c.all_funcs():
+        if c.owners(f.name) <= {'cfg_opt_print_pff_indent'}:
+            continue
+        for call in f.calls('cfg_print_pff_indent'):
+            nouter += 1
+            if call.args[2].kind != 'null':
+                chk.fail('R19.2', 'public-filter:%s' % f.name, c.where(call), '%s() does not start with an empty inherited filter' % f.name)
+            else:
+                chk.ok('R19.2', f.name, 'passes NULL as the inherited filter', nontrivial=False)
     for fname in ('cfg_print', 'cfg_print_indent'):
-        f = c.need(fname)
-        calls = list(f.calls('cfg_print_pff_indent'))
-        if len(calls) != 1 or calls[0].args[2].kind != 'null':
-            chk.fail('R19.2', 'public-filter:%s' % fname, c.where(f), '%s() does not start with an empty inherited filter' % fname)
-        else:
-            chk.ok('R19.2', fname, 'passes NULL as the inherited filter', nontrivial=False)
+        if 'cfg_print_pff_indent' not in _cfg.transitive(c.callgraph, [fname]):
+            chk.fail('R19.2', 'public-filter:%s' % fname, c.where(c.need(fname)), '%s() does not print through the filtering context printer' % fname)
+    chk.floor('R19.2 outer calls of the context printer', nouter, 1)
 
     # ---- R19.3 / R19.4 / R19.5 -------------------------------------------------------------------
     ex3 = sym.Explorer(c.modules, max_visits=4 if chk.tier == 'thorough' else 3, mod_sets=c.mod_sets, max_paths=200000)
@@ -210,14 +221,14 @@ def run(c, chk):
                              % (sym.render(e.args[2]), sym.render(e.args[3])))
                     break
                 # the opening line and the closing brace are preceded by cfg_indent(fp, indent)
-                before = [x for x in ev[:i] if x.kind == 'call' and x.name in ('cfg_indent', 'fprintf', 'cfg_print_quoted')]
+                toks = outmodel.tokens(ev, calls=MARKS)
+                ti = next(k for k, t in enumerate(toks) if t[0] == 'call' and t[2] is e)
+                before, after = toks[:ti], toks[ti + 1:]
                 # the opening line: the last cfg_indent() before the body uses the current depth and output follows it
-                li = max([k for k, x in enumerate(before) if x.name == 'cfg_indent'] or [-1])
-                ok_open_line = li >= 0 and before[li].args[1] == ('p', 'indent') and li < len(before) - 1
-                after = [x for x in ev[i + 1:] if x.kind == 'call' and x.name in ('cfg_indent', 'fprintf')]
-                ok_open = ok_open_line
-                ok_close = len(after) >= 2 and after[0].name == 'cfg_indent' and after[0].args[1] == ('p', 'indent') and after[1].name == 'fprintf' \
-                    and after[1].args[1] == ('str', '}\n')
+                li = max([k for k, x in enumerate(before) if x[0] == 'call' and x[1] == 'cfg_indent'] or [-1])
+                ok_open = li >= 0 and before[li][2].args[1] == ('p', 'indent') and li < len(before) - 1
+                ok_close = len(after) >= 2 and after[0][0] == 'call' and after[0][1] == 'cfg_indent' and after[0][2].args[1] == ('p', 'indent') \
+                    and outmodel.render(after[1:])[0].startswith('}\n')
                 if not (ok_open and ok_close):
                     ok3 = False
                     chk.fail('R19.3', 'section-indent', c.where(e.ins), 'the opening line or the closing brace of a section is not indented with the current depth')
@@ -243,26 +254,26 @@ def run(c, chk):
                     chk.fail('R19.4', 'callback-args', c.where(e.ins), 'the print callback is called without its NULL test or with other arguments than (opt, index, fp)')
                     break
         # a list is never written commented out (an empty list must read back as empty, not as the default)
-        if 'opt->flags has LIST' in conds and '!opt->type eq SEC' in conds:
-            ltexts = [x.args[1][1] for x in ev if x.kind == 'call' and x.name == 'fprintf' and len(x.args) > 1 and x.args[1][0] == 'str']
-            if '# ' in ltexts:
+        ptypes = possible_types(c, p)
+        if 'opt->flags has LIST' in conds and 'CFGT_SEC' not in ptypes:
+            if '# ' in outmodel.render(outmodel.tokens(ev, calls=MARKS))[0]:
                 ok5 = False
                 chk.fail('R19.5', 'list-commented', c.where(op), 'a list option is written commented out ("# name = {...}"): reading the text back restores the declared default instead of the printed (empty) list')
                 break
         # R19.5: scalar, not a section, not a list
-        scalar = ('!opt->type eq SEC' in conds) and ('!opt->flags has LIST' in conds) and ('!opt->type eq FUNC' in conds or 'opt->type ne FUNC' in conds)
+        scalar = ('!opt->flags has LIST' in conds) and ptypes and ptypes <= {'CFGT_INT', 'CFGT_FLOAT', 'CFGT_STR', 'CFGT_BOOL', 'CFGT_PTR', 'CFGT_COMMENT'}
         if scalar:
-            texts = [x.args[1][1] for x in ev if x.kind == 'call' and x.name == 'fprintf' and len(x.args) > 1 and x.args[1][0] == 'str']
+            text = outmodel.render(outmodel.tokens(ev, calls=MARKS))[0]
             unset = any(cn[0] == 'icmp' and cn[2][0] == 'call' and cn[2][1] == 'cfg_opt_size' and cn[3] == sym.C0 and ((cn[1] == 'eq') == t) for cn, t, _ in p.assume) or \
                 any(cn[0] == 'icmp' and cn[2][0] == 'call' and cn[2][1] == 'cfg_opt_getnstr' and cn[3] == sym.C0 and ((cn[1] == 'eq') == t) for cn, t, _ in p.assume)
-            if '%s=' in texts:
+            if '%s=' in text:
                 if unset:
                     nunset += 1
-                    if '# ' not in texts or texts.index('# ') > texts.index('%s='):
+                    if '# ' not in text or text.index('# ') > text.index('%s='):
                         ok5 = False
                         chk.fail('R19.5', 'unset-not-commented', c.where(op), 'a scalar option without a value is written as if it were set')
                         break
-                elif '# ' in texts:
+                elif '# ' in text:
                     ok5 = False
                     chk.fail('R19.5', 'set-commented', c.where(op), 'a scalar option that has a value is written commented out')
                     break
@@ -276,13 +287,34 @@ def run(c, chk):
     chk.floor('R19.4 built-in writer call paths', nval, 3)
     chk.floor('R19.5 unset scalar paths', nunset, 1)
     # static site counts (sibling agreement)
-    nb = len(list(op.calls('cfg_opt_nprint_var')))
+    nb = len(list(c.deep_calls(op, 'cfg_opt_nprint_var')))
     from .c14 import fnptr_field
-    npf = len([x for x in op.calls() if x.callee_name() is None and fnptr_field(op, x.callee) == 'pf'])
+    npf = len([x for g in c.deep_funcs(op) for x in g.calls() if x.callee_name() is None and fnptr_field(g, x.callee) == 'pf'])
     if npf < nb:
         chk.fail('R19.4', 'sibling-count', c.where(op), '%d built-in value writer sites but only %d print-callback sites' % (nb, npf))
     else:
         chk.ok('R19.4', 'sibling sites', '%d built-in writer sites, %d callback sites' % (nb, npf), nontrivial=False)
+
+
+def possible_types(c, p, root=('p', 'opt')):
+    """the option types the path condition leaves possible for the option being printed"""
+    enum = c.confuse.enums.get('cfg_type_t') or {}
+    byval = {v: k for k, v in enum.items()}
+    left = set(byval)
+
+    def is_type(v):
+        while v[0] == 'bin' and v[1] in ('trunc', 'sext', 'zext'):
+            v = v[2]
+        return v[0] == 'ld' and v[1][0] == 'fld' and v[1][3] == 'type' and v[1][1] == root
+    for cn, t, _ in p.assume:
+        if cn[0] == 'icmp' and cn[1] in ('eq', 'ne') and sym.is_const(cn[3]) and is_type(cn[2]):
+            if (cn[1] == 'eq') == t:
+                left &= {cn[3][1]}
+            else:
+                left.discard(cn[3][1])
+        elif cn[0] == 'switch-default' and is_type(cn[1]):
+            left -= set(p.neq.get(cn[1]) or ())
+    return set(byval[v] for v in left)
 
 
 def list_commented_out(c):
@@ -293,8 +325,9 @@ def list_commented_out(c):
         if p.end != 'ret':
             continue
         conds = [('' if t else '!') + pm.describe_cond(cn) for cn, t, _ in p.assume]
-        if 'opt->flags has LIST' in conds and '!opt->type eq SEC' in conds:
-            for x in p.events:
-                if x.kind == 'call' and x.name == 'fprintf' and len(x.args) > 1 and x.args[1] == ('str', '# '):
-                    return x.ins
+        if 'opt->flags has LIST' in conds and 'CFGT_SEC' not in possible_types(c, p):
+            toks = outmodel.tokens(p.events, calls=MARKS)
+            text, index = outmodel.render(toks)
+            if '# ' in text:
+                return toks[index[text.index('# ')]][-1].ins
     return None
